@@ -235,6 +235,11 @@ func (c *FnCtx) alloc(x *ssa.Alloc) {
 		c.setH(hn, fmt.Sprintf("(store %s %s %s)", c.H(hn), r, c.M.Zero(es)))
 	}
 	c.bind(x, Val{T: r, S: SInt, GT: x.Type()})
+	if c.inl == nil && c.E.calleeImmutable(x) {
+		names, _ := c.E.addrHeaps(x)
+		c.protected = append(c.protected, protCell{ref: r, heaps: names, alloc: x})
+		c.note("local " + x.Comment + " is callee-immutable (captured read-only / never escapes)")
+	}
 }
 
 func (c *FnCtx) store(x *ssa.Store) {
